@@ -484,13 +484,16 @@ def process_batch(mod, rep, tier, seed, broken, label='main'):
             view = getattr(mod, 'sample_view', lambda c, o: dict(case=c, observation=o))(small, o2[0])
             what = {'correspondence': mod.CHK + '.' + getattr(mod, 'CHECK_FN', 'check') + ' (model vs implementation)', 'case': small,
                     'observation': view.get('observation'), 'code': c2.get(0, 0), 'mismatching_cases': len(mism)}
+            if c2.get(0, 0) & 2 and not (hasattr(mod, 'classify') and mod.classify(small, o2[0], c2.get(0, 0), findings)):
+                # the shrunk disagreement is itself an input on which the statement fails
+                found = {'case': small, 'observation': view.get('observation'), 'code': c2.get(0, 0)}
             srng = random.Random(seed + 7919)
             neigh = []
             if hasattr(mod, 'neighbours'):
                 for j in mism[:5]:
                     neigh.extend(mod.neighbours(cases[j], srng))
             neigh.extend(mod.generate(srng, 'search', Report(mod.PID, tier, seed)))
-            if neigh:
+            if neigh and not found:
                 o3, c3 = evaluate(mod, neigh)
                 for j, code in sorted(c3.items()):
                     if code & 2 and not (hasattr(mod, 'classify') and mod.classify(neigh[j], o3[j], code, findings)):
